@@ -14,6 +14,8 @@
   * `n = A ; while n > B: BODY ; n -= 1`  ->  `for n in range(A, B, -1): BODY`   (counting loops; see _counting_whiles)
   * `for a, b in ((x1, y1), (x2, y2)): BODY`  ->  BODY[a:=x1, b:=y1] ; BODY[a:=x2, b:=y2]   (literal of pure elements, possibly held
                                          in a local bound once; no break/continue/else)
+  * `map(f, it)` / `filter(p, it)` / `itertools.filterfalse(p, it)` with attrgetter / lambda / a function  ->  generator expressions
+  * `for v in (E for w in IT if C): BODY`  ->  `for w in IT: if C: v = E; BODY`      (a loop over a generator is the generator's loop)
   * `setattr(o, "name", v)`          ->  o.name = v
   * `if (x := E) is not None:`       ->  x = E ; if x is not None:      (walrus evaluated first in the test)
   * `for ...: ... else:` untouched
@@ -169,8 +171,23 @@ class _D(ast.NodeTransformer):
     lits = {}  # name -> literal tuple/list it is bound to once (set per function by desugar())
 
     def visit_For(self, node):
-        """Unroll `for a, b in ((x1, y1), (x2, y2), ...)` over a literal of pure elements (data-driven statement lists)."""
+        """Unroll `for a, b in ((x1, y1), (x2, y2), ...)` over a literal of pure elements (data-driven statement lists); fuse a
+        loop over a generator expression with the generator: `for v in (E for w in IT if C): BODY` -> `for w in IT: if C: v = E; BODY`."""
         it = node.iter
+        if isinstance(it, ast.GeneratorExp) and len(it.generators) == 1 and not node.orelse and not it.generators[0].is_async \
+                and isinstance(node.target, (ast.Name, ast.Tuple)):
+            g = it.generators[0]
+            tnames = {x.id for x in ast.walk(g.target) if isinstance(x, ast.Name)}
+            vnames = {x.id for x in ast.walk(node.target) if isinstance(x, ast.Name)}
+            body_names = {x.id for b in node.body for x in ast.walk(b) if isinstance(x, ast.Name)}
+            if not (tnames & body_names - vnames) or tnames == vnames:
+                inner = list(node.body)
+                if not (isinstance(it.elt, ast.Name) and isinstance(node.target, ast.Name) and it.elt.id == node.target.id):
+                    inner = [_loc(ast.Assign(targets=[node.target], value=it.elt, type_comment=None), node)] + inner
+                for c in reversed(g.ifs):
+                    inner = [_loc(ast.If(test=c, body=inner, orelse=[]), node)]
+                fused = _loc(ast.For(target=g.target, iter=g.iter, body=inner, orelse=[], type_comment=None), node)
+                return self.visit_For(fused)
         if isinstance(it, ast.Name) and it.id in self.lits:
             it = self.lits[it.id]
         # D.items() over a literal dict: the (key, value) pairs in order
@@ -306,8 +323,52 @@ def _counting_whiles(stmts):
     return out
 
 
+class _Functional(ast.NodeTransformer):
+    """map / filter / itertools.filterfalse with operator.attrgetter, a lambda or a plain function  ->  generator expressions"""
+    n = 0
+
+    def _apply(self, fn, arg):
+        if isinstance(fn, ast.Call) and (ast.unparse(fn.func) in ("attrgetter", "operator.attrgetter")) and len(fn.args) == 1 \
+                and isinstance(fn.args[0], ast.Constant) and isinstance(fn.args[0].value, str) and fn.args[0].value.isidentifier():
+            return ast.Attribute(value=arg, attr=fn.args[0].value, ctx=ast.Load())
+        if isinstance(fn, ast.Lambda) and len(fn.args.args) == 1 and not fn.args.defaults:
+            p = fn.args.args[0].arg
+
+            class S(ast.NodeTransformer):
+                def visit_Name(self_, x):
+                    return copy.deepcopy(arg) if x.id == p else x
+            return S().visit(copy.deepcopy(fn.body))
+        if isinstance(fn, (ast.Name, ast.Attribute)):
+            return ast.Call(func=fn, args=[arg], keywords=[])
+        return None
+
+    def visit_Call(self, node):
+        self.generic_visit(node)
+        d = ast.unparse(node.func)
+        if d in ("map", "filter", "itertools.filterfalse", "filterfalse") and len(node.args) == 2 and not node.keywords:
+            _Functional.n += 1
+            v = "_fx%d" % _Functional.n
+            var = ast.Name(id=v, ctx=ast.Load())
+            if isinstance(node.args[0], ast.Constant) and node.args[0].value is None and d != "map":
+                body = var
+            else:
+                body = self._apply(node.args[0], var)
+            if body is None:
+                return node
+            if d == "map":
+                elt, ifs = body, []
+            else:
+                elt = ast.Name(id=v, ctx=ast.Load())
+                ifs = [body if d == "filter" else ast.UnaryOp(op=ast.Not(), operand=body)]
+            return ast.copy_location(ast.GeneratorExp(elt=elt, generators=[ast.comprehension(
+                target=ast.Name(id=v, ctx=ast.Store()), iter=node.args[1], ifs=ifs, is_async=0)]), node)
+        return node
+
+
 def desugar(fnode):
     f = copy.deepcopy(fnode)
+    f = _Functional().visit(f)
+    ast.fix_missing_locations(f)
     d = _D()
     d.lits = literal_bindings(f)
     return d.visit(f)
